@@ -220,7 +220,8 @@ fn render<V: IntoView>(v: V) -> String {
         }
     }
     out.push_str(rest);
-    out
+    // text nodes are HTML-escaped by the renderer
+    out.replace("&lt;", "<").replace("&gt;", ">").replace("&amp;", "&")
 }
 
 impl World {
